@@ -165,3 +165,9 @@ impl RemoteTracker {
             .for_each(|(_, uplinks)| uplinks.complete(reason));
     }
 }
+
+#[cfg(feature = "verif_hooks")]
+pub mod verif_hooks {
+    pub use super::uplink::Uplinks;
+    pub use super::{LaneRegistry, RemoteSender, RemoteTracker, UplinkResponse};
+}
